@@ -109,6 +109,23 @@ impl Property for C02 {
             "inhibit": case.cfg.inhibit,
         })
     }
+    fn extra(&self, tier: Tier, _seed: u64, ctx: &mut Ctx, stats: &mut Stats) -> Vec<(Value, Failure)> {
+        // one tokenizer, thousands of analyses: the same boundary index comes back after exactly 2^16 (2^17)
+        // word-begin positions with another left context (see C10); every analysis is judged against the
+        // reference search
+        let (dic, cfg, worlds) = crate::props::c10::periodic_worlds();
+        let mut fam: Vec<(String, Case)> = Vec::new();
+        for (name, s1, f, m, s2) in worlds {
+            if tier == Tier::Quick && m > 4096 && !name.ends_with(" 16 characters") {
+                continue;
+            }
+            let mut texts = vec![vec![Piece::Raw(s1)]];
+            texts.extend((1..m).map(|_| vec![Piece::Raw(f.clone())]));
+            texts.push(vec![Piece::Raw(s2)]);
+            fam.push((name, Case { dic: dic.clone(), cfg: cfg.clone(), texts }));
+        }
+        run_family(self, ctx, stats, "periodic", fam)
+    }
     fn check(&self, case: &Case, ctx: &mut Ctx) -> Report {
         let mut rep = Report::default();
         let (dict, _) = match build_world(&case.dic, &case.cfg, ctx) {
